@@ -58,11 +58,8 @@ class Approx:
 
         return type(other) is _dt.timedelta and abs(other - self.ref) <= _dt.timedelta(microseconds=1)
 
-    def __hash__(self):
-        return 0
-
-    def __eq__(self, other):
-        return self.match(other.ref if isinstance(other, Approx) else other)
+    # identity hash/eq on purpose: two expectations within the tolerance of each other stay two members of an expected set
+    # (thorough-tier false alarm: frozenset({Approx(0), Approx(1us)}) collapsed to one member)
 
     def __repr__(self):
         return f"~{self.ref!r}"
@@ -95,6 +92,11 @@ def strict_eq(a, b, _depth=0):  # noqa: C901, PLR0911, PLR0912
     if isinstance(a, (list, tuple, collections.deque)):
         return len(a) == len(b) and all(strict_eq(x, y, _depth + 1) for x, y in zip(a, b))
     if isinstance(a, (dict, collections.abc.Mapping)):
+        if len(a) != len(b) and (any(type(k) is Approx for k in a) or any(type(k) is Approx for k in b)):
+            # keys within the tolerance of each other may merge: every actual item must be an expected one and every expected key present
+            ex, ac = (a, b) if any(type(k) is Approx for k in a) else (b, a)
+            return (all(any(strict_eq(k, ek, _depth + 1) and strict_eq(v, ev, _depth + 1) for ek, ev in ex.items()) for k, v in ac.items())
+                    and all(any(strict_eq(k, ek, _depth + 1) for k in ac) for ek in ex))
         if len(a) != len(b):
             return False
         if isinstance(a, collections.defaultdict) and a.default_factory is not b.default_factory:
@@ -105,13 +107,17 @@ def strict_eq(a, b, _depth=0):  # noqa: C901, PLR0911, PLR0912
                 bk = bkeys[k]
             except KeyError:
                 # nan keys and the like: fall back to a linear search
-                bk = next((kk for kk in b if strict_eq(kk, k, _depth + 1)), _Missing)
+                bk = next((kk for kk in b if strict_eq(kk, k, _depth + 1) and strict_eq(v, b[kk], _depth + 1)), _Missing)
                 if bk is _Missing:
                     return False
             if not strict_eq(k, bk, _depth + 1) or not strict_eq(v, b[bk], _depth + 1):
                 return False
         return True
     if isinstance(a, (set, frozenset)):
+        if any(type(x) is Approx for x in a) or any(type(y) is Approx for y in b):
+            # rounding may merge or keep apart members that are within the tolerance: mutual cover instead of a bijection
+            return (all(any(strict_eq(x, y, _depth + 1) for y in b) for x in a)
+                    and all(any(strict_eq(x, y, _depth + 1) for x in a) for y in b))
         if len(a) != len(b):
             return False
         rest = list(b)
